@@ -17,6 +17,7 @@ spec -> code : spec/PrivacyCache.tla (privacyClass cache, isVisible, reparent) i
 from __future__ import annotations
 
 import contextlib
+import copy
 import io
 import itertools
 import json
@@ -69,7 +70,9 @@ def make_options(rules: Sequence[Tuple[str, str]], full: bool, rng: random.Rando
     from pydoctor.options import Options
     if full:
         return Options.from_args(rule_args(rules, rng))
-    o = Options.defaults()
+    if "defaults" not in _parsed_rule:
+        _parsed_rule["defaults"] = Options.defaults()        # 2 ms each: parse once, copy
+    o = copy.copy(_parsed_rule["defaults"])
     privacy = []
     for lv, pat in rules:
         key = f"{lv}:{pat}"
@@ -449,14 +452,19 @@ def replay_behaviour(rec: Dict[str, Any], refs: Dict[str, str] | None) -> Dict[s
 
 
 def part_cache(ctx: Ctx) -> int:
-    moves, depth = (2, 4) if ctx.quick else (3, 6)
+    moves, depth = (2, 3) if ctx.quick else (3, 5)
     r = ctx.tlc("PrivacyCache", CACHE_CFG.format(moves=moves, depth=depth, key="fullName",
                                                  emit="ACTION_CONSTRAINT EmitEdge"),
                 workers="auto", coverage=ctx.quick, timeout=1500)
-    if r.errors or (r.rc != 0 and not r.violated):
-        raise MachineryError(f"TLC failed on PrivacyCache: {r.errors[:3]} rc={r.rc}\n" + "\n".join(r.out.splitlines()[-25:]))
-    if r.violated:
-        ctx.extra.setdefault("design_level_invariants_violated", []).append({"cache": r.violated})
+    # deeper behaviours (stale keys taken over by another object ...), random walks of the same spec
+    nsim = 150 if ctx.quick else 2500
+    rs = ctx.tlc("PrivacyCache", CACHE_CFG.format(moves=4, depth=9, key="fullName", emit="ACTION_CONSTRAINT EmitEdge"),
+                 workers=1, simulate=f"num={nsim}", depth=9, seed=ctx.seed, timeout=1500)
+    for x in (r, rs):
+        if x.errors or (x.rc != 0 and not x.violated):
+            raise MachineryError(f"TLC failed on PrivacyCache: {x.errors[:3]} rc={x.rc}\n" + "\n".join(x.out.splitlines()[-25:]))
+        if x.violated:
+            ctx.extra.setdefault("design_level_invariants_violated", []).append({"cache": x.violated})
     refs_rec = [x for x in r.printed if isinstance(x, dict) and "refs" in x]
     if not refs_rec:
         raise MachineryError("PrivacyCache did not print the reference table")
@@ -464,6 +472,14 @@ def part_cache(ctx: Ctx) -> int:
     recs = [x for x in r.printed if isinstance(x, dict) and "h" in x]
     if not recs:
         raise MachineryError("PrivacyCache emitted no behaviour")
+    n_exh = len(recs)
+    seen = set()
+    for x in rs.printed:
+        if isinstance(x, dict) and "h" in x:
+            k = json.dumps([x["rid"], [[st["op"], st["o"], st["mod"], st["nm"]] for st in x["h"]]])
+            if k not in seen:
+                seen.add(k)
+                recs.append(x)
     nontrivial = 0
     for n, rec in enumerate(recs):
         out = replay_behaviour(rec, refs[rec["rid"] - 1])
@@ -484,6 +500,7 @@ def part_cache(ctx: Ctx) -> int:
                         "behaviour": [[st["op"], st["o"], "".join(st["name"]), st["mod"] + "." + "".join(st["nm"])
                                        if st["op"] == "reparent" else st["got"]] for st in rec["h"]]})
     ctx.extra["cache_machine"] = {"MaxMoves": moves, "MaxDepth": depth, "behaviours_replayed": len(recs),
+                                  "from_exhaustive_exploration": n_exh, "from_random_walks_depth_9": len(recs) - n_exh,
                                   "with_reparent": nontrivial}
     if ctx.quick:
         # core's coverage parser does not know the "(l c l c)" suffix TLC prints for actions whose body is a LET
